@@ -248,7 +248,7 @@ def setup(tier, seed):
     jobs = _jobs(tier)
     return {
         'jobs': jobs,
-        'budget_s': 900 if tier == 'quick' else 3300,
+        'budget_s': 780 if tier == 'quick' else 3300,
         'explanation': 'all operation skeletons up to the stated length over {submit, execute, cancel, repeated execute/cancel, cancel-all, '
                        'pending-market flush, update_active_orders} on up to 3 real orders (spot and futures, passive strategy attached) with '
                        'symbolic quantities, prices and fee: status history of every order is checked after every operation, a call on a final '
